@@ -8,10 +8,13 @@ package sim
 import (
 	"fmt"
 	"hash/fnv"
+	"runtime"
 	"sort"
 	"sync"
 	"testing"
 	"testing/synctest"
+
+	"github.com/onflow/atree"
 )
 
 type Sched struct {
@@ -23,11 +26,86 @@ type Sched struct {
 	rr      int
 	seq     map[string]int // per base key occurrence counter (keeps keys unique)
 	Decisions int
+
+	// element-granular worker yields (ElemStride > 0): a worker goroutine is bound to the job it took
+	// (task key = site + slab id) and parks again at every ElemStride-th harness callback (element
+	// Encode, type-info Encode, storable decode) it enters while working on that job, so that two
+	// workers interleave in the middle of EncodeSlab / DecodeSlab, where pooled buffers are live
+	ElemStride int
+	tasks      map[uint64]string // goroutine id -> task key
+	elemCount  map[string]int    // task key -> callbacks seen
+	ElemYields int
 }
 
 func NewSched(policy string, r *Rng) *Sched {
-	return &Sched{parked: map[string]chan struct{}{}, policy: policy, r: r, seq: map[string]int{}}
+	return &Sched{parked: map[string]chan struct{}{}, policy: policy, r: r, seq: map[string]int{}, tasks: map[uint64]string{}, elemCount: map[string]int{}}
 }
+
+// curGID returns the id of the calling goroutine (parsed from the first line of its stack header).
+func curGID() uint64 {
+	var buf [40]byte
+	n := runtime.Stack(buf[:], false)
+	// "goroutine 123 ["
+	var id uint64
+	for _, c := range buf[10:n] {
+		if c < '0' || c > '9' {
+			break
+		}
+		id = id*10 + uint64(c-'0')
+	}
+	return id
+}
+
+// WorkerYield is the library-side yield point (atree.VerifYield).
+func (s *Sched) WorkerYield(site string, id atree.SlabID) {
+	key := site + ":" + RegIDOf(id).String()
+	if s.ElemStride > 0 && id != atree.SlabIDUndefined {
+		g := curGID()
+		s.mu.Lock()
+		s.tasks[g] = key
+		s.mu.Unlock()
+	}
+	s.Yield(key)
+}
+
+// ElemYield is called from harness callbacks that have no task context of their own.
+func (s *Sched) ElemYield(kind string) {
+	if s.ElemStride <= 0 {
+		return
+	}
+	g := curGID()
+	s.mu.Lock()
+	key, ok := s.tasks[g]
+	n := 0
+	if ok {
+		s.elemCount[key]++
+		n = s.elemCount[key]
+	}
+	s.mu.Unlock()
+	if !ok || n%s.ElemStride != 0 {
+		return
+	}
+	s.mu.Lock()
+	s.ElemYields++
+	s.mu.Unlock()
+	s.Yield(key + "/" + kind)
+}
+
+// Install / Uninstall wire the scheduler to the library hook and to the value callbacks.
+func (s *Sched) Install() {
+	atree.VerifYield = s.WorkerYield
+	if s.ElemStride > 0 {
+		elemYield = s.ElemYield
+	}
+}
+
+func (s *Sched) Uninstall() {
+	atree.VerifYield = nil
+	elemYield = nil
+}
+
+// elemYield is consulted by value / type-info / decoder callbacks (nil outside element-granular bubbles).
+var elemYield func(kind string)
 
 // Yield parks the calling goroutine until the scheduler releases it.
 func (s *Sched) Yield(key string) {
